@@ -559,6 +559,8 @@ partial def loop (h : IO.FS.Stream) (out : IO.FS.Stream) (sess : Option Sess) : 
   let toks := match toks with
     | "wput" :: h' :: ty :: rest => if ty == "u8" || ty == "i8" then ["bad-op-wput"] else "put" :: h' :: ty :: rest
     | "wput_var" :: rest => "put_var" :: rest
+    -- `std::io::Write::write` of a handle is `put_slice` with another error type
+    | "iowrite" :: rest => "put_slice" :: rest
     | t => t
   match toks with
   | [] => loop h out sess
